@@ -326,6 +326,20 @@ theorem frame_read_back (t : UInt8) (body bs rest : Bytes) (h : frame (t :: body
   have hrl : (List.replicate pad (0 : UInt8)).length = pad := by simp
   rw [List.drop_left' hrl]
 
+/-- **Any number of emitted packets, one after the other on a connection, are read back in order, each exactly, and nothing
+    else** (the model reads from the bytes that have arrived; that the real reader is indifferent to how they were cut into
+    `recv` results is exercised by the correspondence check) -/
+theorem frames_read_back (pf : List ((UInt8 × Bytes) × Bytes)) (h : ∀ x ∈ pf, frame (x.1.1 :: x.1.2) = .ok x.2) :
+    readPackets (pf.length + 1) (pf.map (·.2)).flatten = (pf.map (fun x => (x.1.1.toNat, x.1.2)), none) := by
+  induction pf with
+  | nil => simp [readPackets, readPacket]
+  | cons x rest ih =>
+    simp only [List.length_cons, List.map_cons, List.flatten_cons]
+    unfold readPackets
+    rw [frame_read_back x.1.1 x.1.2 x.2 (rest.map (·.2)).flatten (h x (List.mem_cons_self))]
+    simp only
+    rw [ih (fun y hy => h y (List.mem_cons_of_mem _ hy))]
+
 /-- an independently written RFC 4253 §6 decoder accepts every emitted packet and returns its payload -/
 theorem frame_rfc (p bs : Bytes) (h : frame p = .ok bs) : rfcDecode bs = some p := by
   obtain ⟨hlt, hbs⟩ := frame_eq _ _ h
